@@ -134,7 +134,8 @@ ScriptThread* ScriptMaster::ExecuteThread(const StringResolvable& scriptName, Ev
 
 ScriptClass* ScriptMaster::CurrentScriptClass()
 {
-    return CurrentThread()->GetScriptClass();
+    ScriptThread* const thread = CurrentThread();
+    return thread ? thread->GetScriptClass() : nullptr;
 }
 
 ScriptThread* ScriptMaster::CurrentThread() noexcept
